@@ -95,6 +95,10 @@ META = {
 }
 
 
+# checks that are finished and triaged (a half-built checks/cNN.py of a builder agent is not registered)
+READY = {"C01", "C02", "C03", "C04", "C05", "C06", "C07"}
+
+
 def main():
     props = [json.loads(l) for l in open(os.path.join(VERIF, "properties.jsonl"))]
     checks = []
@@ -103,7 +107,7 @@ def main():
     for p in props:
         pid = p["id"]
         level, engine, ref, text, note, tech = META[pid]
-        if os.path.exists(os.path.join(VERIF, "checks", pid.lower() + ".py")):
+        if pid in READY and os.path.exists(os.path.join(VERIF, "checks", pid.lower() + ".py")):
             served[engine].append(pid)
             checks.append({
                 "property_id": pid,
